@@ -168,6 +168,8 @@ R("886401a65b", "env", "RA source link-layer address option: the address comes f
 R("88f12b364c", "internal", "IPv4 total length: the DHCP reply is framed only when it has at most 65507 octets", props=C19, requires=("V4",))
 R("3b271e10e0", "internal", "UDP length: the DHCP reply is framed only when it has at most 65507 octets", props=C19, requires=("V4",))
 
+R("4abc071785", "unreach", "Debug for radv::Void: the type is an enum without variants, no value of it exists to be formatted")
+
 # ================================================================== C20: what the HTTP responders reach
 C20 = ("C20",)
 R("a62504f0c5", "env", "TextEncoder::encode into a Vec fails only for a metric family without samples or with an invalid name; the families "
